@@ -86,7 +86,7 @@ func runSeq(c *run.Ctx) {
 	if c.Batch == 0 {
 		runFixedSeq(c, &st)
 	}
-	n := c.Pick(6400, 128000)
+	n := c.Pick(4800, 96000)
 	lo, hi := c.Share(n)
 	shrunk := 0
 	for i := lo; i < hi; i++ {
@@ -133,7 +133,7 @@ func runSeq(c *run.Ctx) {
 
 func runConc(c *run.Ctx) {
 	var st concStats
-	n := c.Pick(6400, 128000)
+	n := c.Pick(4800, 96000)
 	lo, hi := c.Share(n)
 	for i := lo; i < hi; i++ {
 		r := run.NewRng(c.Seed, 2, uint64(i))
@@ -202,7 +202,7 @@ func runForkChild(c *run.Ctx) {
 	if c.Batch == 0 {
 		runFixedFork(c, &st)
 	}
-	n := c.Pick(96, 1920)
+	n := c.Pick(80, 1600)
 	lo, hi := c.Share(n)
 	for i := lo; i < hi; i++ {
 		if only := os.Getenv("C18_FORK_ONLY"); only != "" && only != fmt.Sprint(i) {
